@@ -236,20 +236,21 @@ impl Check for C11 {
         out.ops += enc.len() as u64;
         out.fault_n("eof_at_offset", enc.len() as u64);
       } else {
-        // long items: every offset costs |item|^2; EOF at the first and last 128 offsets, at every offset
-        // within 4 bytes of a multiple of 256, and at 256 sampled offsets
+        // long items: every offset costs |item|^2; EOF at the first and last 64 offsets, at every offset
+        // within 4 bytes of a multiple of 4096 (and of 256 for items under 8 KiB), and at 64 sampled offsets
         let n = enc.len();
-        let mut ks: Vec<usize> = (0..128).chain(n - 128..n).collect();
-        let mut m = 256;
+        let mut ks: Vec<usize> = (0..64).chain(n - 64..n).collect();
+        let step = if n < 8192 { 256 } else { 4096 };
+        let mut m = step;
         while m < n {
           for d in 0..8 {
             if m + d >= 4 && m + d - 4 < n {
               ks.push(m + d - 4);
             }
           }
-          m += 256;
+          m += step;
         }
-        for _ in 0..256 {
+        for _ in 0..64 {
           ks.push(rf.below(n));
         }
         ks.sort();
